@@ -19,6 +19,9 @@ def main(tier):
     # 0/0 or log(-1) before it rejects its arguments then kills the process instead of reporting the failure
     for cfg in ('shipped', 'kissel'):
         results.append(sweeprun.run(cfg, 'plain', budget // 3, env={'XV_FPTRAP': '1'}))
+    # ... and on the library exactly as the project's own build system makes it (meson: its flags, its options), not the monitor's build
+    for cfg in ('shipped', 'kissel'):
+        results.append(sweeprun.run(cfg, 'meson', budget // 3))
     viol, paths, fns, tot = sweeprun.merge(results)
     for res in results:
         for c in res['crashes']:
